@@ -17,6 +17,8 @@ type TraceEvent struct {
 	Kind string `json:"k"` // R W (memory), L U RL RU (mutex), OB OE (sync.Once body)
 	Loc  string `json:"l"` // location or lock identity (stable across paths)
 	Fn   string `json:"f,omitempty"`
+
+	inOnce bool // set by the interleaving encoder: the event lies inside a sync.Once body
 }
 
 func (e *Exec) locID(o *Obj, path []int) string {
@@ -202,7 +204,29 @@ type Race struct {
 // FindRace asks the solver for an interleaving of the two traces in which two conflicting accesses
 // (same location, at least one write) are adjacent. onceWinner: which thread runs the sync.Once bodies.
 func FindRace(solver *sym.Solver, ta, tb []TraceEvent) (*Race, int, error) {
+	return findConflict(solver, ta, tb, nil)
+}
+
+// FindFlow asks for an interleaving in which one thread reads (or overwrites) a location of the
+// library's own package state (location name starts with one of the prefixes) after the other thread
+// wrote it outside a sync.Once initialisation — ordered by locks or not. Two calls on independent data
+// must not communicate through such state: a satisfiable query is a candidate for "the call does not
+// return what it would have returned running alone".
+func FindFlow(solver *sym.Solver, ta, tb []TraceEvent, prefixes []string) (*Race, int, error) {
+	return findConflict(solver, ta, tb, prefixes)
+}
+
+func findConflict(solver *sym.Solver, ta, tb []TraceEvent, flowPrefixes []string) (*Race, int, error) {
 	queries := 0
+	flow := flowPrefixes != nil
+	libState := func(loc string) bool {
+		for _, p := range flowPrefixes {
+			if strings.HasPrefix(loc, p) {
+				return true
+			}
+		}
+		return false
+	}
 	// locations written by one side and touched by the other
 	type acc struct {
 		idx  int
@@ -229,12 +253,12 @@ func FindRace(solver *sym.Solver, ta, tb []TraceEvent) (*Race, int, error) {
 	}
 	conflict := map[string]bool{}
 	for l := range writesA {
-		if touchB[l] {
+		if touchB[l] && (!flow || libState(l)) {
 			conflict[l] = true
 		}
 	}
 	for l := range writesB {
-		if touchA[l] {
+		if touchA[l] && (!flow || libState(l)) {
 			conflict[l] = true
 		}
 	}
@@ -260,6 +284,7 @@ func FindRace(solver *sym.Solver, ta, tb []TraceEvent) (*Race, int, error) {
 				if loser && depth > 0 {
 					continue
 				}
+				ev.inOnce = depth > 0
 				out = append(out, ev)
 			}
 			return out
@@ -273,7 +298,7 @@ func FindRace(solver *sym.Solver, ta, tb []TraceEvent) (*Race, int, error) {
 					if !conflict[ev.Loc] {
 						continue
 					}
-					if n := len(out); n > 0 && out[n-1].Kind == ev.Kind && out[n-1].Loc == ev.Loc {
+					if n := len(out); n > 0 && out[n-1].Kind == ev.Kind && out[n-1].Loc == ev.Loc && out[n-1].inOnce == ev.inOnce {
 						continue
 					}
 				}
@@ -373,8 +398,24 @@ func FindRace(solver *sym.Solver, ta, tb []TraceEvent) (*Race, int, error) {
 				if (y.Kind != "R" && y.Kind != "W") || x.Loc != y.Loc || (x.Kind == "R" && y.Kind == "R") {
 					continue
 				}
+				var q string
+				if flow {
+					// a write made outside Once initialisation that the other thread's access follows
+					var alts []string
+					if x.Kind == "W" && !x.inOnce {
+						alts = append(alts, fmt.Sprintf("(< %s %s)", name(0, i), name(1, j)))
+					}
+					if y.Kind == "W" && !y.inOnce {
+						alts = append(alts, fmt.Sprintf("(< %s %s)", name(1, j), name(0, i)))
+					}
+					if len(alts) == 0 {
+						continue
+					}
+					q = fmt.Sprintf("(push 1)\n(assert (or %s false))\n(check-sat)\n(pop 1)\n", strings.Join(alts, " "))
+				} else {
+					q = fmt.Sprintf("(push 1)\n(assert (or (= %s (+ %s 1)) (= %s (+ %s 1))))\n(check-sat)\n(pop 1)\n", name(1, j), name(0, i), name(0, i), name(1, j))
+				}
 				queries++
-				q := fmt.Sprintf("(push 1)\n(assert (or (= %s (+ %s 1)) (= %s (+ %s 1))))\n(check-sat)\n(pop 1)\n", name(1, j), name(0, i), name(0, i), name(1, j))
 				res := solver.RawCheck(q)
 				if res == sym.Sat {
 					if f := os.Getenv("GOSYM_DUMPSMT"); f != "" {
@@ -388,7 +429,11 @@ func FindRace(solver *sym.Solver, ta, tb []TraceEvent) (*Race, int, error) {
 						os.WriteFile(f, []byte(sb.String()+q+"\n; "+strings.Join(names, "\n; ")), 0o644)
 					}
 					solver.RawText("(pop 1)\n")
-					return &Race{A: x, B: y, Schedule: fmt.Sprintf("once winner: thread %d; conflicting accesses made adjacent", winner)}, queries, nil
+					sched := fmt.Sprintf("once winner: thread %d; conflicting accesses made adjacent", winner)
+					if flow {
+						sched = fmt.Sprintf("once winner: thread %d; the access of one thread follows the other thread's write to library state", winner)
+					}
+					return &Race{A: x, B: y, Schedule: sched}, queries, nil
 				}
 				if res == sym.Unknown {
 					solver.RawText("(pop 1)\n")
